@@ -333,3 +333,62 @@ def generate(rng):
 if __name__ == "__main__":
     import random, sys
     print(generate(random.Random(int(sys.argv[1]) if len(sys.argv) > 1 else 1)))
+
+
+# ---------------------------------------------------------------------------
+# Operator grid: one small package per operator, each a handful of pure functions `return args.x OP args.y` over
+# REFINED parameter ranges.  With the `allargs` directive the pipeline calls every function with every operand pair
+# of the ranges, so the range the checker claims for `args.x OP args.y` (and for each operand) is compared with the
+# value of EVERY pair (WuffsCore!ClaimedRanges) and the C with the semantics (C04).  Range pairs are chosen so that
+# the exact result fits the type (the checker should accept; a rejected package is counted, never an alarm).
+
+_GRID_RANGES = [(0, 0), (0, 1), (1, 1), (0, 7), (2, 4), (5, 9), (3, 20), (17, 31)]
+
+
+def _grid_valid(op, ty, X, Y):
+    top = 255 if ty == "u8" else (1 << 30) - 1
+    a, b = X
+    c, d = Y
+    if op == "+":
+        return b + d <= top
+    if op == "-":
+        return a >= d
+    if op == "*":
+        return b * d <= top
+    if op in ("/", "%"):
+        return c >= 1
+    if op in ("<<", "~mod<<"):
+        return d <= (7 if ty == "u8" else 31) and (op == "~mod<<" or (b << d) <= top)
+    if op == ">>":
+        return d <= (7 if ty == "u8" else 31)
+    return True
+
+
+GRID_OPS = ["+", "-", "*", "/", "%", "<<", ">>", "&", "|", "^", "~mod+", "~mod-", "~mod*", "~mod<<", "~sat+", "~sat-"]
+
+
+def opgrid_programs(rng, ops=None, per_op=6, widths=("u32", "u8")):
+    """[(name, text)]: one package per operator and width."""
+    out = []
+    for op in (ops or GRID_OPS):
+        for ty in widths:
+            pairs = [(X, Y) for X in _GRID_RANGES for Y in _GRID_RANGES if _grid_valid(op, ty, X, Y)]
+            rng.shuffle(pairs)
+            # always keep the pairs where the operand ranges overlap or straddle each other (that is where range rules differ)
+            pairs.sort(key=lambda p: 0 if (p[0][0] <= p[1][1] and p[1][0] <= p[0][1] and p[0] != p[1]) else 1)
+            pairs = pairs[:per_op]
+            if not pairs:
+                continue
+            L = ["// wcore: allargs maxcalls=1", "pub struct foo?(", "\tz : base.u32,", ")", ""]
+            for k, (X, Y) in enumerate(pairs):
+                L += ["pub func foo.g%d(x: base.%s[%d ..= %d], y: base.%s[%d ..= %d]) base.%s {" % (k, ty, X[0], X[1], ty, Y[0], Y[1], ty),
+                      "\treturn args.x %s args.y" % op, "}", ""]
+                # the same operands inside a larger expression: the operator's claimed range feeds the next step
+                if op in ("%", "/", ">>", "&", "-", "~sat-") and ty == "u32":
+                    L += ["pub func foo.h%d(x: base.u32[%d ..= %d], y: base.u32[%d ..= %d]) base.u32 {" % (k, X[0], X[1], Y[0], Y[1]),
+                          "\treturn (args.x %s args.y) + 1" % op, "}", ""]
+            name = "opgrid_%s_%s" % (ty, {"+": "add", "-": "sub", "*": "mul", "/": "quo", "%": "mod", "<<": "shl", ">>": "shr", "&": "and",
+                                        "|": "or", "^": "xor", "~mod+": "modadd", "~mod-": "modsub", "~mod*": "modmul",
+                                        "~mod<<": "modshl", "~sat+": "satadd", "~sat-": "satsub"}[op])
+            out.append((name, "\n".join(L)))
+    return out
